@@ -176,6 +176,8 @@ func checkC15(c *Ctx, r *Report) {
 	c15Gen(c, r)
 	c15Order(c, r)
 	c15AllDefs(c, r)
+	c15Format(c, r)
+	c15Fresh(c, r)
 }
 
 func c15Esc(c *Ctx, r *Report) {
@@ -556,6 +558,8 @@ func checkC16(c *Ctx, r *Report) {
 	c16Defaults(c, r)
 	c16BindName(c, r)
 	c16ExtPure(c, r)
+	c16RefPure(c, r)
+	c16ScanPure(c, r)
 	importRules(c, r, "C13", "C16.VALALL", "after every load the whole type table and the whole directive table are validated, unfiltered (C13.WALK): validating only what a load defines or extends accepts a split arrangement (`extend interface` arriving after its implementers) that the single document refuses", "C13.WALK")
 }
 
@@ -1186,4 +1190,103 @@ func c15ValText(c *Ctx, r *Report) {
 		}
 	}
 	r.floor("C15.VALTEXT", "uses of the value renderer by the printers", n, 2)
+}
+
+// c16RefPure: whether a name is bound while the document is scanned (the definition is already in the root)
+// or later by the reference replacement pass (the definition follows, or comes in the same load) depends on
+// how the definitions are arranged. The replacement pass may therefore do nothing but put the definition in
+// place of the placeholder: every write in its summary is a store that is control dependent on the
+// overwritten value being a *Ref. Anything else it does (recording implementers, completing defaults)
+// happens for one arrangement and not for the other.
+func c16RefPure(c *Ctx, r *Report) {
+	r.rule("C16.REFPURE", "every write in the summary of the reference replacement pass (replaceTypeRefs) is a store control dependent on the overwritten value being a *Ref placeholder")
+	rt := c.fn("(*Root).replaceTypeRefs")
+	if rt == nil {
+		r.undecided("C16.REFPURE", "anchor (*Root).replaceTypeRefs", token.NoPos, "not found")
+		return
+	}
+	eng := newEffEngine(c)
+	eng.run(rt)
+	s := eng.sums[rt]
+	n, bad := 0, 0
+	if s != nil {
+		var keys []string
+		for k := range s.effects {
+			keys = append(keys, k)
+		}
+		sort.Strings(keys)
+		seen := map[string]bool{}
+		for _, k := range keys {
+			ef := s.effects[k]
+			if !writeKinds[ef.kind] {
+				continue
+			}
+			n++
+			if ef.refOnly || isFreshTarget(ef.target) {
+				continue
+			}
+			key := fmt.Sprintf("%s: %s", fnName(ef.fn), ef.descr())
+			if seen[key] {
+				continue
+			}
+			seen[key] = true
+			bad++
+			r.add("C16.REFPURE", key, ef.pos, Violated, "the replacement pass does more than replace a placeholder ("+ef.target.String()+"): this happens only for names that were still placeholders, i.e. for definitions that follow their use in the same load, and not when the definition was already in the root - the two arrangements then describe different schemas")
+		}
+	}
+	r.check("C16.REFPURE", fnName(rt)+": only placeholder replacements", rt.Pos(), bad == 0, fmt.Sprintf("%d other write(s) among %d summarised writes", bad, n))
+	r.floor("C16.REFPURE", "writes of the replacement pass examined", n, 5)
+}
+
+// c16ScanPure: what the scanner does with a type it has just bound depends on whether the name was already
+// defined (an earlier load) or is still a placeholder (same document): the scanner may store the type, and
+// nothing else. In particular no function reachable from the SDL scanner through static calls invokes an
+// input coercer: a default "completed" through its type at scan time is completed for one arrangement of the
+// definitions only.
+func c16ScanPure(c *Ctx, r *Report) {
+	r.rule("C16.SCANPURE", "no function reachable from the SDL scanner's methods by static calls invokes CoerceIn / CoerceOut")
+	var roots []*ssa.Function
+	for _, fn := range c.allFns {
+		if recv := fn.Signature.Recv(); recv != nil && c.isNamed(recv.Type(), "sdlParser") {
+			roots = append(roots, fn)
+		}
+	}
+	if len(roots) == 0 {
+		r.undecided("C16.SCANPURE", "anchors: sdlParser methods", token.NoPos, "not found")
+		return
+	}
+	seen := map[*ssa.Function]bool{}
+	var work []*ssa.Function
+	for _, f := range roots {
+		seen[f] = true
+		work = append(work, f)
+	}
+	n := 0
+	var bad []string
+	var pos token.Pos
+	for len(work) > 0 {
+		fn := work[len(work)-1]
+		work = work[:len(work)-1]
+		n++
+		for _, ci := range callsIn(fn) {
+			cm := ci.Common()
+			if cm.IsInvoke() && (cm.Method.Name() == "CoerceIn" || cm.Method.Name() == "CoerceOut") {
+				bad = append(bad, fnName(fn))
+				pos = ci.Pos()
+			}
+			if cal := cm.StaticCallee(); cal != nil && c.inPkg(cal) && !seen[cal] && len(cal.Blocks) > 0 {
+				if cal.Name() == "CoerceIn" || cal.Name() == "CoerceOut" {
+					bad = append(bad, fnName(fn))
+					pos = ci.Pos()
+					continue
+				}
+				seen[cal] = true
+				work = append(work, cal)
+			}
+		}
+	}
+	sort.Strings(bad)
+	r.check("C16.SCANPURE", "the SDL scanner coerces nothing through the types it binds", pos, len(bad) == 0,
+		"a coercer is invoked at scan time in "+strings.Join(bad, ", ")+": the bound type is a definition only when it arrived in an earlier load and a placeholder otherwise, so the value stored differs between one document and two loads")
+	r.floor("C16.SCANPURE", "functions reachable from the SDL scanner", n, 20)
 }
